@@ -827,7 +827,9 @@ func (c *clusterClient) doresultfn(
 				if !c.retry || !cm.IsRetryable() {
 					continue
 				}
-				retryDelay = c.retryHandler.RetryDelay(attempts, cm, resp.Error())
+				if retryDelay = c.retryHandler.RetryDelay(attempts, cm, resp.Error()); retryDelay < 0 {
+					continue // the retry policy says stop for this command, even if other commands make the batch go another round
+				}
 			} else {
 				nc = c.redirectOrNew(addr, cc, cm.Slot(), mode)
 			}
@@ -1287,7 +1289,9 @@ func (c *clusterClient) resultcachefn(
 				if !c.retry {
 					continue
 				}
-				retryDelay = c.retryHandler.RetryDelay(attempts, Completed(cm.Cmd), resp.Error())
+				if retryDelay = c.retryHandler.RetryDelay(attempts, Completed(cm.Cmd), resp.Error()); retryDelay < 0 {
+					continue // the retry policy says stop for this command, even if other commands make the batch go another round
+				}
 			} else {
 				nc = c.redirectOrNew(addr, cc, cm.Cmd.Slot(), mode)
 			}
